@@ -396,7 +396,12 @@ def _parse_attribute_name(name: str) -> str:
     """
 
     def _char_map(idx: int, char: str) -> str:
-        if char.isalnum() or char in ("_", "-", " "):
+        # `isalnum` alone admits characters which may not occur in identifiers.
+        if (char.isalnum() and ("a" + char).isidentifier()) or char in (
+            "_",
+            "-",
+            " ",
+        ):
             return char
         if char in string.whitespace:
             return "_"
@@ -409,6 +414,9 @@ def _parse_attribute_name(name: str) -> str:
 
     chars = map(expand(_char_map), enumerate(name))
     name = "".join(chars).replace(" ", "_").replace("-", "_")
+    # Python normalises identifiers in source code; do it here so that the
+    # generated attribute keeps its name (the JSON name is kept as source).
+    name = unicodedata.normalize("NFKC", name)
     if not name:
         return "blank"
     first_chars = set(string.ascii_letters) | {"_"}
